@@ -183,6 +183,26 @@ check(
     "DESIGN.md section 3, C19",
 )
 
+check(
+    "C10",
+    "history-based runtime monitor: random operation sequences on long-lived objects, every seeded generation compared with a fresh-process baseline, deep identity-aware state fingerprints before/after every operation",
+    "Random histories (parse, seeded and global-generator generation, printing, elements/mirror with mutation of the returned copies, both graphs, "
+    "atom-graph generation, ensemble probability, typing with default and explicit files, failing generation + retry, deep copies, two objects from one "
+    "string, arbitrary re-seeding of the global generator) run over pools of parsed molecules; each seeded generation must equal the result of a fresh "
+    "process, printed forms / generability must not change, and no operation may change any attribute reachable from any pool object.",
+    "Held on the histories explored (each replayable from its seed). The baseline process runs without contracts. Third-party objects (scipy/rdkit/networkx) are opaque to the fingerprint.",
+    "DESIGN.md section 3, C10",
+)
+check(
+    "C20",
+    "totality/element oracle + metamorphic relations (random atom renumbering, random call histories mixing default and explicit parameter files) on the real typing entry points",
+    "Generated molecules of all archetypes (typable chemistry and the whole fragment library) are typed: either every atom of the H-added molecule gets "
+    "one parameter set of its own element's mass or the dedicated error with payload is raised; partial molecules are refused; renumbered copies, any "
+    "history of default/explicit-file calls, and copies of the bundled files give the same assignment.",
+    "Held on the molecules typed. Renumbering replaces the RDKit molecule inside a deep copy of the MolGen (harness side).",
+    "DESIGN.md section 3, C20",
+)
+
 ALL = [f"C{i:02d}" for i in range(1, 21)]
 
 
